@@ -33,6 +33,113 @@ def unquote_names(mod):
     return out
 
 
+def _nonneg(f, e, at, depth=0):
+    """e >= 0: non-negative constants, enumerate() indices, sums of those"""
+    rd = f.rd
+    if isinstance(e, ast.Constant):
+        return isinstance(e.value, int) and e.value >= 0
+    if isinstance(e, ast.BinOp) and isinstance(e.op, ast.Add):
+        return _nonneg(f, e.left, at, depth) and _nonneg(f, e.right, at, depth)
+    if isinstance(e, ast.Call) and dotted(e.func) == 'len':
+        return True
+    if isinstance(e, ast.Name) and depth < 4:
+        ds = rd.at(at, e.id)
+        if not ds:
+            return False
+        for dd in ds:
+            if dd.kind == 'for' and isinstance(dd.value, ast.Call) and dotted(dd.value.func) == 'enumerate' and dd.index == 0:
+                continue
+            if dd.kind == 'for' and isinstance(dd.value, ast.Call) and dotted(dd.value.func) == 'enumerate':
+                # tuple target (idx, c): only the first element is the index
+                tgt = dd.stmt.target
+                if isinstance(tgt, ast.Tuple) and isinstance(tgt.elts[0], ast.Name) and tgt.elts[0].id == e.id:
+                    continue
+                return False
+            if dd.kind == 'aug' and isinstance(dd.stmt.op, ast.Add) and _nonneg(f, dd.value, dd.node, depth + 1):
+                continue
+            if dd.kind == 'assign' and dd.value is not None and _nonneg(f, dd.value, dd.node, depth + 1):
+                continue
+            return False
+        return True
+    return False
+
+
+def ge_cursor(f, loop, cur, bound, e, at, assume_nonneg=(), depth=0):
+    """Is the value of `e` at CFG node `at` at or after the scan cursor?  True / 'guarded' (it is, provided the value is >= 0: the
+    result of str.find / index started at the cursor) / False.  The cursor only moves forward, so `>=` any value it had in this
+    iteration is `>=` its value at the loop head."""
+    g, rd = f.cfg, f.rd
+    if depth > 6:
+        return False
+    if isinstance(e, ast.Name) and e.id == cur:
+        return True
+    if isinstance(e, ast.Name) and e.id == bound:
+        # the loop condition is cur < bound; holds as long as the cursor was not moved since the loop head
+        head = T.loop_head(g, loop)
+        return True if rd.same_defs(head, at, cur) else False
+    if isinstance(e, ast.BinOp) and isinstance(e.op, ast.Add):
+        l = ge_cursor(f, loop, cur, bound, e.left, at, assume_nonneg, depth + 1)
+        if l is True and _nonneg(f, e.right, at):
+            return True
+        r = ge_cursor(f, loop, cur, bound, e.right, at, assume_nonneg, depth + 1)
+        if r is True and _nonneg(f, e.left, at):
+            return True
+        return False
+    if isinstance(e, ast.Call) and call_attr(e) in ('find', 'index') and len(e.args) >= 2:
+        st_ = ge_cursor(f, loop, cur, bound, e.args[1], at, assume_nonneg, depth + 1)
+        if st_ is True:
+            return True if call_attr(e) == 'index' else 'guarded'
+        return False
+    if isinstance(e, ast.IfExp):
+        cp = compare_parts(e.test)
+        neg_name = None       # name known to be < 0 in the body and >= 0 in the orelse
+        if cp and isinstance(cp[0], ast.Name) and cp[1] is ast.Lt and is_const(cp[2], 0):
+            neg_name = cp[0].id
+        b = ge_cursor(f, loop, cur, bound, e.body, at, assume_nonneg, depth + 1)
+        o = ge_cursor(f, loop, cur, bound, e.orelse, at, tuple(assume_nonneg) + ((neg_name,) if neg_name else ()), depth + 1)
+        if cp and isinstance(cp[0], ast.Name) and cp[1] is ast.GtE and is_const(cp[2], 0):
+            b = ge_cursor(f, loop, cur, bound, e.body, at, tuple(assume_nonneg) + (cp[0].id,), depth + 1)
+            o = ge_cursor(f, loop, cur, bound, e.orelse, at, assume_nonneg, depth + 1)
+        return True if (b is True and o is True) else False
+    if isinstance(e, ast.Name):
+        ds = rd.at(at, e.id)
+        if not ds:
+            return False
+        res = True
+        for d in ds:
+            if d.kind != 'assign' or d.value is None:
+                return False
+            v = ge_cursor(f, loop, cur, bound, d.value, d.node, assume_nonneg, depth + 1)
+            if v is True:
+                continue
+            if v == 'guarded':
+                if e.id in assume_nonneg:
+                    continue
+                # every way from this definition to the use goes through the `>= 0` side of a sign test of the name
+                # (on the other side the name is re-bound, or the use is not reached)
+                sign_edges = set()
+                for tn in g.nodes:
+                    if tn.kind != 'test':
+                        continue
+                    cp = compare_parts(tn.ast)
+                    if cp and isinstance(cp[0], ast.Name) and cp[0].id == e.id:
+                        if (cp[1] is ast.Lt and is_const(cp[2], 0)) or (cp[1] is ast.Eq and isinstance(cp[2], ast.UnaryOp)):
+                            sign_edges.add((tn, 'true'))        # avoid the negative side
+                        elif (cp[1] is ast.GtE and is_const(cp[2], 0)) or (cp[1] is ast.NotEq and isinstance(cp[2], ast.UnaryOp)):
+                            sign_edges.add((tn, 'false'))
+                tests = {tn for (tn, _) in sign_edges}
+                if tests and not g.can_reach(d.node, at, avoid_nodes=tests) and (at in tests or True):
+                    # all paths meet a sign test; the negative side must not reach the use with this definition still in force
+                    redef = [n for n in g.nodes if n is not d.node and any(x.name == e.id for x in rd.gen.get(n, []))]
+                    neg_ok = all(s_ in redef or not g.can_reach(s_, at, avoid_nodes=redef) for (tn, lab) in sign_edges for s_ in T.succ_by_label(tn, lab))
+                    if neg_ok:
+                        continue
+                return False
+            return False
+        return res
+    return False
+
+
 def check(P, R):
     R.rule('C18.a', 'scanner terminates (cursor strictly increases round the loop)', floor=3)
     R.rule('C18.b', 'scanner raises nothing', floor=5)
@@ -70,25 +177,8 @@ def check(P, R):
         if isinstance(a, ast.Assign) and isinstance(v, ast.BinOp) and isinstance(v.op, ast.Add) and isinstance(v.left, ast.Name) \
                 and isinstance(v.right, ast.Constant) and isinstance(v.right.value, int) and v.right.value >= 1:
             j = v.left.id
-            jd = rd.at(an, j)
-            okj = bool(jd)
-            for d in jd:
-                w = d.value
-                good = (d.kind == 'assign' and isinstance(w, ast.BinOp) and isinstance(w.op, ast.Add) and isinstance(w.left, ast.Name)
-                        and w.left.id == cur and isinstance(w.right, ast.Name))
-                if good:
-                    # idx >= 0: enumerate index, or that plus a positive constant, or constant 0
-                    for dd in rd.at(d.node, w.right.id):
-                        if dd.kind == 'for' and isinstance(dd.value, ast.Call) and dotted(dd.value.func) == 'enumerate':
-                            continue
-                        if dd.kind == 'aug' and isinstance(dd.value, ast.Constant) and dd.value.value >= 0:
-                            continue
-                        if dd.kind == 'assign' and isinstance(dd.value, ast.Constant) and isinstance(dd.value.value, int) and dd.value.value >= 0:
-                            continue
-                        good = False
-                okj = okj and good
-            ok = okj
-            det = '' if ok else f'`{j}` is not `{cur} + <non-negative index>`'
+            ok = ge_cursor(f, loop, cur, bound, v.left, an) is True
+            det = '' if ok else f'`{j}` is not known to be at or after the cursor (`{cur} + <non-negative index>`, a successful find() from the cursor, or the length)'
         elif isinstance(a, ast.AugAssign) and isinstance(a.op, ast.Add) and isinstance(v, ast.Constant) and v.value >= 1:
             ok, det = True, ''
         R.ob('C18.a', f, a, ok, detail=det, why='without progress the loop spins for ever on that input')
@@ -114,12 +204,13 @@ def check(P, R):
     for fq in ('ombott.request_pkg.body_mixin:BodyMixin.query', 'ombott.request_pkg.body_mixin:BodyMixin.POST'):
         cf = P.func(fq)
         for c in [x for x in walk_shallow(cf.node) if isinstance(x, ast.Call) and dotted(x.func) == 'parse_qsl']:
-            kw = {k.arg: k.value for k in c.keywords}
+            at_ = cf.cfg.node_of_stmt(c)[0]
+            kw = {k.arg: T.expand(cf, k.value, at_) for k in c.keywords}
             ok = set(kw) == {'setitem'} and isinstance(kw['setitem'], ast.Attribute) and kw['setitem'].attr == '__setitem__'
             R.ob('C18.b', cf, c, ok, detail='' if ok else 'parse_qsl is not given a plain __setitem__ callback')
             # POST: text is latin1 of the body
             if fq.endswith('POST'):
-                a0 = c.args[0] if c.args else None
+                a0 = T.expand(cf, c.args[0], at_) if c.args else None
                 okl = isinstance(a0, ast.Call) and dotted(a0.func) == 'touni' and len(a0.args) == 2 and is_const(a0.args[1], 'latin1')
                 R.ob('C18.d', cf, c, okl, text='forms text = touni(body, latin1)', detail='' if okl else 'the urlencoded body is not decoded as latin1 before scanning')
 
@@ -183,10 +274,22 @@ def check_total(P, R, f, unq, seen, depth=0):
                 r = P.resolve_name(f.module, nm)
                 if r and r[0] == 'func':
                     check_total(P, R, r[1], unq, seen, depth + 1)
+                elif r and r[0] == 'class':
+                    # a small callable object of the package: constructing it and calling it must be total as well
+                    for mname_ in ('__init__', '__call__'):
+                        if mname_ in r[1].methods:
+                            check_total(P, R, r[1].methods[mname_], unq, seen, depth + 1)
                 else:
                     ok, det = False, f'call of `{nm}` is not in the catalogue of total operations'
         elif isinstance(c.func, ast.Attribute):
-            if c.func.attr not in TOTAL_ATTRS:
+            stored_callable = False
+            if isinstance(c.func.value, ast.Name) and c.func.value.id == 'self' and f.owner_cls is not None and '__init__' in f.owner_cls.methods:
+                init_ = f.owner_cls.methods['__init__']
+                stored_callable = any(isinstance(st_, ast.Assign) and isinstance(st_.value, ast.Name) and st_.value.id in init_.params
+                                      and any(dotted(t_) == f'self.{c.func.attr}' for t_ in st_.targets) for st_ in walk_shallow(init_.node))
+            if stored_callable:
+                pass      # the sink callable handed to the constructor (like the `setitem` / `append` parameters)
+            elif c.func.attr not in TOTAL_ATTRS:
                 ok, det = False, f'method `{c.func.attr}` is not in the catalogue of total operations'
         R.ob('C18.b', f, c, ok, detail=det, why='parsing any string whatsoever must not raise')
     for n in ast.walk(f.node):
@@ -196,24 +299,51 @@ def check_total(P, R, f, unq, seen, depth=0):
             # indexing: only of dicts after a membership test / lists; flag string indexing by computed index
             v = dotted(n.value) or ''
             ok = v.startswith('_') or v in ('container',)
+            if not ok and not isinstance(f.node, ast.Lambda):
+                # `d[k]` right under `if k in d`
+                nn_ = f.cfg.node_of_stmt(n)
+                if nn_:
+                    for (e_, holds_, _) in T.guard_atoms(f, nn_[0]):
+                        cp_ = compare_parts(e_)
+                        if cp_ and cp_[1] is ast.In and holds_ and src(cp_[0]) == src(n.slice) and src(cp_[2]) == src(n.value):
+                            ok = True
             R.ob('C18.b', f, n, ok, detail='' if ok else f'index load `{short(n)}` may raise IndexError/KeyError', nontrivial=False)
 
 
 def check_add(P, R, f):
     adds = [x for x in P.all_funcs() if x.parent is f and x.name == 'add' and isinstance(x.node, ast.FunctionDef)]
-    R.require(adds, 'parse_qsl.add not found')
-    a = adds[0]
+    scope_nodes = [f.node]
+    sink_names = {'setitem'}
+    if adds:
+        a = adds[0]
+        k, v = a.params[0], a.params[1]
+    else:
+        # the sink may be a small callable object of the package: `add = _Setter(setitem)` with the logic in __call__
+        a = None
+        for st_ in walk_shallow(f.node):
+            if isinstance(st_, ast.Assign) and any(isinstance(t_, ast.Name) and t_.id == 'add' for t_ in st_.targets) and isinstance(st_.value, ast.Call):
+                r_ = P.resolve_name(f.module, dotted(st_.value.func) or '')
+                if r_ and r_[0] == 'class' and '__call__' in r_[1].methods:
+                    a = r_[1].methods['__call__']
+                    scope_nodes = [r_[1].node]
+                    init_ = r_[1].methods.get('__init__')
+                    if init_ is not None:
+                        for s2 in walk_shallow(init_.node):
+                            if isinstance(s2, ast.Assign) and isinstance(s2.value, ast.Name) and s2.value.id in init_.params:
+                                sink_names |= {dotted(t_) for t_ in s2.targets if dotted(t_)}
+        R.require(a is not None, 'parse_qsl.add not found')
+        k, v = a.params[1], a.params[2]
     g, rd = a.cfg, a.rd
-    k, v = a.params[0], a.params[1]
-    # what each dict stores (from the enclosing function + add itself)
+    # what each dict stores (from the enclosing function / class + add itself)
     stores = {}
-    for n in ast.walk(f.node):
-        if isinstance(n, ast.Assign):
-            for t in n.targets:
-                if isinstance(t, ast.Subscript) and isinstance(t.value, ast.Name):
-                    stores.setdefault(t.value.id, []).append(n.value)
-        if isinstance(n, ast.Call) and call_attr(n) == 'setdefault' and isinstance(n.func.value, ast.Name) and len(n.args) == 2:
-            stores.setdefault(n.func.value.id, []).append(n.args[1])
+    for root_ in scope_nodes:
+        for n in ast.walk(root_):
+            if isinstance(n, ast.Assign):
+                for t in n.targets:
+                    if isinstance(t, ast.Subscript) and dotted(t.value):
+                        stores.setdefault(dotted(t.value), []).append(n.value)
+            if isinstance(n, ast.Call) and call_attr(n) == 'setdefault' and dotted(n.func.value) and len(n.args) == 2:
+                stores.setdefault(dotted(n.func.value), []).append(n.args[1])
 
     def never_empty(dname):
         vals = stores.get(dname, [])
@@ -227,8 +357,8 @@ def check_add(P, R, f):
         if isinstance(t, ast.Name):
             defs = rd.at(n, t.id)
             for d in defs:
-                if d.value is not None and isinstance(d.value, ast.Call) and call_attr(d.value) == 'get' and isinstance(d.value.func.value, ast.Name):
-                    dn = d.value.func.value.id
+                if d.value is not None and isinstance(d.value, ast.Call) and call_attr(d.value) == 'get' and dotted(d.value.func.value):
+                    dn = dotted(d.value.func.value)
                     ok = never_empty(dn)
                     R.ob('C18.c', a, n.ast, ok, text=f'if {short(n.ast)}  [{t.id} = {short(d.value)}]', detail='' if ok else
                          f'"seen before" is decided by the truthiness of a value stored in `{dn}`, which may be the empty string: '
@@ -236,14 +366,14 @@ def check_add(P, R, f):
                          why='repeated keys are collected as lists in submission order')
         else:
             cp = compare_parts(t)
-            if cp and cp[1] in (ast.In, ast.NotIn) and isinstance(cp[2], ast.Name):
+            if cp and cp[1] in (ast.In, ast.NotIn) and dotted(cp[2]):
                 R.ob('C18.c', a, n.ast, True, text=f'if {short(n.ast)} [membership]')
     # promotion: a list literal [first, new] where first comes from the seen-store and new is the parameter, stored once via setitem
     lists = [x for x in ast.walk(a.node) if isinstance(x, ast.List) and len(x.elts) == 2]
     ok = False
     for L in lists:
         e0, e1 = L.elts
-        first_from_seen = isinstance(e0, ast.Subscript) and isinstance(e0.value, ast.Name) and src(e0.slice) == k or \
+        first_from_seen = isinstance(e0, ast.Subscript) and dotted(e0.value) and src(e0.slice) == k or \
             (isinstance(e0, ast.Name) and any(d.value is not None and isinstance(d.value, (ast.Subscript, ast.Call)) for d in rd.at(g.node_of_stmt(L)[0], e0.id)))
         ok = ok or (first_from_seen and isinstance(e1, ast.Name) and e1.id == v)
     R.ob('C18.c', a, lists[0] if lists else a.node, ok, text='second value -> [first, second]', detail='' if ok else
@@ -254,7 +384,7 @@ def check_add(P, R, f):
     R.ob('C18.c', a, apps[0] if apps else a.node, bool(apps) and not ins, text='later values appended', detail='' if (apps and not ins) else
          'later values are not appended at the end of the list')
     # first value stored as scalar via setitem(k, ...)
-    sets = [c for c in ast.walk(a.node) if isinstance(c, ast.Call) and isinstance(c.func, ast.Name) and c.func.id == 'setitem']
+    sets = [c for c in ast.walk(a.node) if isinstance(c, ast.Call) and dotted(c.func) in sink_names]
     ok = len(sets) >= 2 and all(c.args and isinstance(c.args[0], ast.Name) and c.args[0].id == k for c in sets)
     R.ob('C18.c', a, sets[0] if sets else a.node, ok, text='setitem(key, ...) for first value and for the promoted list', detail='' if ok else
          'the container is not updated for the first value and once for the list')
